@@ -164,5 +164,6 @@ theorem goEquals_false_of_leafDiff : ∀ (fuel : Nat) (ss : Schemas) (t : Ty) (a
       | union pre post k h' =>
         exact eqBranches_false_mid post (fun t wx wy => ih t _ _ wx wy h') pre fields hx.1 hy.1
     case alias t' => exact ih t' a b ha hb hd
+    case collPtr t' => simp [ih t' a b ha hb hd]
 
 end Cog.Sem.GoEq
